@@ -976,7 +976,9 @@ class ManifestRecursiveLoader:
                             raise ManifestIncompatibleEntry(
                                 out[fullpath][1], e, diff)
                         # otherwise, make sure we have all checksums
-                        out[fullpath][1].checksums.update(e.checksums)
+                        # (duplicate IGNORE entries have none)
+                        if e.tag != 'IGNORE':
+                            out[fullpath][1].checksums.update(e.checksums)
                         # the kept entry may have changed, so its Manifest
                         # needs to be written as well
                         self.updated_manifests.add(out[fullpath][0])
